@@ -221,6 +221,55 @@ where
     }
 }
 
+/// A stream that refuses every call (a descriptor opened the wrong way round, a peer that hung
+/// up): the exact forms never need to ask it for a transfer of nothing.
+struct Refusing(usize);
+
+impl vm_memory::ReadVolatile for Refusing {
+    fn read_volatile<B: BitmapSlice>(&mut self, _buf: &mut VolatileSlice<B>) -> Result<usize, vm_memory::VolatileMemoryError> {
+        self.0 += 1;
+        Err(vm_memory::VolatileMemoryError::IOError(std::io::Error::from(std::io::ErrorKind::BrokenPipe)))
+    }
+}
+
+impl vm_memory::WriteVolatile for Refusing {
+    fn write_volatile<B: BitmapSlice>(&mut self, _buf: &VolatileSlice<B>) -> Result<usize, vm_memory::VolatileMemoryError> {
+        self.0 += 1;
+        Err(vm_memory::VolatileMemoryError::IOError(std::io::Error::from(std::io::ErrorKind::BrokenPipe)))
+    }
+}
+
+/// Exact stream forms with count 0 over streams that refuse every call (like std's read_exact /
+/// write_all of nothing, which return at once).
+///
+/// The exact read of guest memory is not judged: it is defined through the up-to form, which -
+/// like std's `read` - passes an empty request on to the source, and whether a source that fails
+/// such a request fails the transfer is not fixed by the property (recorded in DESIGN.md).
+fn exact_forms_refusing<A: Copy + std::fmt::Debug, B: Bytes<A>>(k: &K, layer: &str, b: &B, addrs: &[(A, &str)], snapshot: &dyn Fn() -> Vec<u8>, judge_read: bool)
+where
+    B::E: std::fmt::Debug,
+{
+    for (a, class) in addrs {
+        let args = format!("addr {:?} count 0, stream refuses every call", a);
+        if judge_read {
+            k.form(layer, "read_exact_volatile_from(count 0, refusing source)", class, args.clone(), snapshot, &mut || {
+                let mut s = Refusing(0);
+                want_ok(b.read_exact_volatile_from(*a, &mut s, 0), |_| true)
+            });
+        }
+        k.form(layer, "write_all_volatile_to(count 0, refusing sink)", class, args.clone(), snapshot, &mut || {
+            let mut s = Refusing(0);
+            want_ok(b.write_all_volatile_to(*a, &mut s, 0), |_| true)
+        });
+        k.form(layer, "write_all_volatile_to(count 0, file opened read-only)", class, args.clone(), snapshot, &mut || {
+            let f0 = crate::layouts::tempfile().map_err(|e| e.to_string())?;
+            use std::os::fd::AsRawFd;
+            let mut f = std::fs::OpenOptions::new().read(true).open(format!("/proc/self/fd/{}", f0.as_raw_fd())).map_err(|e| e.to_string())?;
+            want_ok(b.write_all_volatile_to(*a, &mut f, 0), |_| true)
+        });
+    }
+}
+
 /// Stream forms with count 0 over descriptor-backed and minimal streams (default exact methods).
 fn stream_forms_fd<A: Copy + std::fmt::Debug, B: Bytes<A>>(k: &K, layer: &str, b: &B, addrs: &[(A, &str)], snapshot: &dyn Fn() -> Vec<u8>)
 where
@@ -558,6 +607,7 @@ fn slice_layer(k: &K) {
             stream_forms_fd(k, layer, &vs, &valid, &snap);
             stream_forms_states(k, layer, &vs, &valid, &snap);
             stream_forms_interrupted(k, layer, &vs, &valid, &snap);
+            exact_forms_refusing(k, layer, &vs, &valid, &snap, true);
         }
         copy_forms(k, layer, &vs, &snap);
     }
@@ -577,6 +627,7 @@ where
     stream_forms_fd(k, &layer, m, &valid, snapshot);
     stream_forms_states(k, &layer, m, &valid, snapshot);
     stream_forms_interrupted(k, &layer, m, &valid, snapshot);
+    exact_forms_refusing(k, &layer, m, &valid, snapshot, false);
     // region level
     for (i, reg) in m.iter().enumerate() {
         let layer = format!("region({})", tag);
@@ -598,6 +649,7 @@ where
         stream_forms_fd(k, &layer, reg, &valid, snapshot);
         stream_forms_states(k, &layer, reg, &valid, snapshot);
         stream_forms_interrupted(k, &layer, reg, &valid, snapshot);
+        exact_forms_refusing(k, &layer, reg, &valid, snapshot, true);
         let _ = i;
         // slices handed out by the region
         if let Ok(vs) = reg.as_volatile_slice() {
